@@ -270,6 +270,151 @@ fn run_manual(check: &Check) {
     });
 }
 
+/// Direct use of every registered pixel data writer: `encode` called k = 1..4 times on the SAME
+/// `dst` / `offset_table` (documented to append), each call with a native image of 1..3 frames;
+/// after every call the accumulated value is put into an object the way a caller of the adapter
+/// API would (pixel data, Number of Frames, then the returned operations) and checked like every
+/// other encapsulated value; `encode_frame` is driven frame by frame on a non-empty `dst`.
+fn run_direct(check: &Check) {
+    use dicom_core::ops::ApplyOp;
+    use dicom_encoding::adapters::EncodeOptions;
+    use dicom_encoding::TransferSyntaxIndex;
+    use dicom_transfer_syntax_registry::TransferSyntaxRegistry;
+    // (rows, cols, bits, spp): odd frame, even frame, 16 bit, colour (odd frame)
+    let kinds: [(u16, u16, u16, u16); 4] = [(1, 1, 8, 1), (2, 1, 8, 1), (1, 1, 16, 1), (1, 1, 8, 3)];
+    let mut seqs: Vec<Vec<u32>> = vec![];
+    for k in 1..=4usize {
+        for mut code in 0..3usize.pow(k as u32) {
+            let mut v = vec![];
+            for _ in 0..k {
+                v.push((code % 3) as u32 + 1);
+                code /= 3;
+            }
+            seqs.push(v);
+        }
+    }
+    let targets = encoder_targets();
+    let mut units = vec![];
+    for (ti, t) in targets.iter().enumerate() {
+        for (ki, k) in kinds.iter().enumerate() {
+            for (si, sq) in seqs.iter().enumerate() {
+                units.push((ti, *t, ki, *k, si, sq.clone()));
+            }
+        }
+    }
+    check.extra("direct_encode_sequences", json!(units.len()));
+    let make = |kind: (u16, u16, u16, u16), frames: u32, call: usize| -> Img {
+        let n = kind.0 as usize * kind.1 as usize * kind.3 as usize * frames as usize;
+        let mut data = index_bytes(kind.2, n);
+        for b in data.iter_mut() {
+            *b = b.wrapping_add((call * 53) as u8) | 1;
+        }
+        Img::new(kind.0, kind.1, frames, kind.2, kind.3, data)
+    };
+    check.par_range(units.len() as u64, |l, i| {
+        let (ti, target, ki, kind, si, sq) = &units[i as usize];
+        let Some(writer) = TransferSyntaxRegistry.get(target).and_then(|t| t.pixel_data_writer()) else { return };
+        let mut dst: Vec<Vec<u8>> = vec![];
+        let mut table: Vec<u32> = vec![];
+        let mut all_frames: Vec<Vec<u8>> = vec![];
+        for (call, &nf) in sq.iter().enumerate() {
+            let case_id = format!("direct/t{ti}/k{ki}/s{si}/call{call}");
+            let wanted = l.want(&case_id);
+            let img = make(*kind, nf, call);
+            let src = img.to_obj(EXPLICIT_LE);
+            let (d0, t0) = (dst.clone(), table.clone());
+            let r = guard(|| writer.encode(&src, EncodeOptions::default(), &mut dst, &mut table).map_err(|e| short(format!("{e:?}"))));
+            all_frames.extend(img.data.chunks(img.frame_bytes()).map(|c| c.to_vec()));
+            if !wanted {
+                if !matches!(r, Ok(Ok(_))) {
+                    return;
+                }
+                continue;
+            }
+            l.eval();
+            let class = json!({"part": "direct", "entry": "encode", "target": target, "calls": call + 1, "appending": call > 0,
+                "frames_in_call": nf, "bits": kind.2, "spp": kind.3, "frame_bytes_odd": img.frame_bytes() % 2 == 1});
+            let fail = |l: &mut Local, aspect: &str, msg: String| {
+                l.outcome(&format!("violation-{aspect}"));
+                l.fail(&case_id, merge(&class, json!({"aspect": aspect})), json!({"frames_per_call": sq, "image": img.label(), "message": msg}));
+            };
+            let ops = match r {
+                Ok(Ok(ops)) => ops,
+                Ok(Err(e)) => {
+                    l.outcome_with("encoder-refused", || json!({"case": case_id, "error": e}));
+                    return;
+                }
+                Err(p) => return fail(l, "encode-panic", p),
+            };
+            l.nontrivial(&case_id);
+            let total = all_frames.len();
+            if dst.len() != total || table.len() != total || dst[..d0.len()] != d0[..] || table[..t0.len()] != t0[..] {
+                return fail(l, "append", format!("before the call {} fragments / table {t0:?}; after it {} fragments / table {table:?}; {total} frames encoded so far", d0.len(), dst.len()));
+            }
+            // assemble the object as a user of the adapter API would
+            let mut obj = src.clone();
+            obj.put(DataElement::new(Tag(0x7FE0, 0x0010), VR::OB, DValue::PixelSequence(PixelFragmentSequence::new(table.clone(), dst.clone()))));
+            obj.put(DataElement::new(Tag(0x0028, 0x0008), VR::IS, dicom_core::PrimitiveValue::from(total.to_string())));
+            for op in ops {
+                if let Err(e) = guard(|| obj.apply(op).map_err(|e| short(format!("{e:?}")))).and_then(|r| r) {
+                    return fail(l, "operation-not-applicable", e);
+                }
+            }
+            if let Some(ts) = TransferSyntaxRegistry.get(target) {
+                obj.meta_mut().set_transfer_syntax(ts);
+            }
+            let frames: Option<&[Vec<u8>]> = (*target == ENCAP_UNCOMPRESSED).then_some(&all_frames[..]);
+            match check_encapsulated(&obj, frames, total, true) {
+                Ok(o) => l.outcome_with(&format!("direct-{o}"), || json!({"case": case_id, "frames_per_call": sq, "target": target})),
+                Err((aspect, msg)) => return fail(l, &aspect, msg),
+            }
+        }
+    });
+    // encode_frame: appends exactly the fragment of that frame to a non-empty buffer
+    let mut funits = vec![];
+    for (ti, t) in targets.iter().enumerate() {
+        for (ki, k) in kinds.iter().enumerate() {
+            for nf in 1..=3u32 {
+                for prefix in [0usize, 3] {
+                    funits.push((ti, *t, ki, *k, nf, prefix));
+                }
+            }
+        }
+    }
+    check.par_range(funits.len() as u64, |l, i| {
+        let (ti, target, ki, kind, nf, prefix) = funits[i as usize];
+        let case_id = format!("direct-frame/t{ti}/k{ki}/f{nf}/p{prefix}");
+        if !l.want(&case_id) {
+            return;
+        }
+        l.eval();
+        let Some(writer) = TransferSyntaxRegistry.get(target).and_then(|t| t.pixel_data_writer()) else { return };
+        let img = make(kind, nf, 0);
+        let src = img.to_obj(EXPLICIT_LE);
+        let class = json!({"part": "direct", "entry": "encode_frame", "target": target, "frames_in_call": nf, "bits": kind.2, "spp": kind.3, "prefix": prefix});
+        let (mut dst, mut table) = (vec![], vec![]);
+        let whole = guard(|| writer.encode(&src, EncodeOptions::default(), &mut dst, &mut table).map(|_| ()).map_err(|e| short(format!("{e:?}"))));
+        if !matches!(whole, Ok(Ok(()))) {
+            l.outcome("encoder-refused");
+            return;
+        }
+        l.nontrivial(&case_id);
+        for f in 0..nf {
+            let pre: Vec<u8> = [0xAA, 0xBB, 0xCC][..prefix].to_vec();
+            let mut buf = pre.clone();
+            let r = guard(|| writer.encode_frame(&src, f, EncodeOptions::default(), &mut buf).map(|_| ()).map_err(|e| short(format!("{e:?}"))));
+            let ok = matches!(r, Ok(Ok(()))) && buf.len() >= prefix && buf[..prefix] == pre[..] && buf[prefix..] == dst[f as usize][..];
+            if !ok {
+                l.outcome("violation-encode-frame");
+                l.fail(&case_id, merge(&class, json!({"aspect": "encode-frame"})), json!({"image": img.label(), "frame": f, "result": format!("{r:?}"),
+                    "buffer": hex(&buf[..buf.len().min(40)]), "fragment_from_encode": hex(&dst[f as usize][..dst[f as usize].len().min(40)])}));
+                return;
+            }
+        }
+        l.outcome("direct-encode-frame-appends-the-fragment");
+    });
+}
+
 fn run_transcode(check: &Check) {
     let imgs = images(check.pick(4, 6), true);
     let targets = encoder_targets();
@@ -326,10 +471,11 @@ fn run_transcode(check: &Check) {
 
 fn main() {
     let check = Check::from_args("C18", Level::Exploration);
-    check.set_rule("helper part: every list of 1..4 frames with sizes from {1,2,3,4,7,8} x fragment size {0,1,2,3,4,8} through Fragments::new + From<Vec<Fragments>>, encapsulate (fragment size 0) and encapsulate_single_frame (one frame), plus one frame of 2^24+1 bytes; manual part: objects of 1..2 (thorough: 3) frames with 1..3 fragments each of 1|2|4 bytes and the offset table computed by vx-ref (frame_pixel_data gathering fragments by offsets); transcoding part: the C19 image universe x origin {API, vx-ref file} x 3 native source syntaxes x every registry entry with a pixel data encoder; each result is put in an object, written, parsed by the strict vx-ref parser and compared with the in-memory value; a case is distinct by its id; non-trivial = an encapsulated value was produced");
+    check.set_rule("helper part: every list of 1..4 frames with sizes from {1,2,3,4,7,8} x fragment size {0,1,2,3,4,8} through Fragments::new + From<Vec<Fragments>>, encapsulate (fragment size 0) and encapsulate_single_frame (one frame), plus one frame of 2^24+1 bytes; manual part: objects of 1..2 (thorough: 3) frames with 1..3 fragments each of 1|2|4 bytes and the offset table computed by vx-ref (frame_pixel_data gathering fragments by offsets); direct part: PixelDataWriter::encode of every registry entry with a writer called k = 1..4 times on the same dst/offset_table with 1..3 frames per call (120 call sequences) x 4 image kinds (odd/even frame, 16 bit, colour), checked after every call, and encode_frame frame by frame on an empty and a non-empty buffer; transcoding part: the C19 image universe x origin {API, vx-ref file} x 3 native source syntaxes x every registry entry with a pixel data encoder; each result is put in an object, written, parsed by the strict vx-ref parser and compared with the in-memory value; a case is distinct by its id; non-trivial = an encapsulated value was produced");
     check.assume("vx-ref strict parser and offset computation (PS3.5 A.4) are the trusted base; several frames with several fragments each is a documented panic of the helper and is not counted as a violation; Encapsulated Pixel Data Value Total Length may count padded or unpadded fragment lengths");
     run_helper(&check);
     run_manual(&check);
+    run_direct(&check);
     run_transcode(&check);
     check.finish();
 }
